@@ -326,3 +326,23 @@ def replay_file(r):
   if res.get("result") == "sat" and isinstance(res.get("replay"), dict) and res["replay"].get("matched"):
     return 1
   return 2
+
+
+def make_dict(director, name):
+  class PDict(dict):
+    def get(self, k, default=None):
+      director.before(name, "get_default")
+      return dict.get(self, k, default)
+
+    def __getitem__(self, k):
+      director.before(name, "getitem")
+      return dict.__getitem__(self, k)
+
+    def __setitem__(self, k, v):
+      director.before(name, "setitem")
+      return dict.__setitem__(self, k, v)
+
+    def __contains__(self, k):
+      director.before(name, "contains")
+      return dict.__contains__(self, k)
+  return PDict()
